@@ -118,8 +118,59 @@ def run_task(eng, prover, task, out):
             check_lock_order(eng, prover, f"C10/{base}/lock-order", x, ctx)
             if not isinstance(res, Raise):
                 prover.goal(f"C10/{base}/ensures:re-pointed", x, to_val(x.rec(s.self_).fields["_filename"]) == new, info=ctx)
+            if eng.mode.get("threads"):
+                # the lock identity of a collection (its file name) changes only while the lock of its CURRENT file is
+                # held: an operation in flight on another thread holds that lock from __enter__ to __exit__, so it
+                # acquires and releases the same lock
+                lid = smt.F("lockid", IntS, Val, IntS)(z3.IntVal(smt.tid_of(cname)), oldfn)
+                held = []
+                for i, e in enumerate(x.events):
+                    if e[0] == "field-store" and e[1] == s.self_.addr and e[2] == "_filename" and x.evdepth[i] is not None:
+                        held.append(z3.Select(x.evdepth[i], lid) >= 1)
+                prover.goal(f"C10/{base}/guarded:file-name-changes-under-the-old-files-lock", x, smt.and_(held), info=ctx)
         out["paths"] += k
         out["functions"][setter.qualname] = setter.sha()
+    elif what == "interference":
+        # balance of the load-and-save context under interference: between __enter__ and __exit__ other threads may
+        # change every piece of shared state that is not protected by the locks this thread holds (the buffered-mode
+        # counters and the shared suspend counter); the locks released must still be the locks acquired
+        from pyvc.values import Iv
+        s = scn.make_scene(eng, cname, "root", None)
+        st = s.st
+        st.assume(s.susp0 == 0)
+        fam = scn.family(eng, s.cls)
+        api.type_facts(eng, st, set([s.cls, fam[0], fam[1]]))
+        rec = st.rec(s.self_)
+        ls = rec.fields["_load_and_save"]
+        lcls = st.rec(ls).cls
+        enter = P.lookup_method(lcls, "__enter__")
+        exit_ = P.lookup_method(lcls, "__exit__")
+        base = f"{cname}._load_and_save@{lcls.name}/root"
+        pre = st.copy()
+        k = 0
+        for (a, r1) in eng.run_function(st, enter, [ls]):
+            k += 1
+            if isinstance(r1, Raise):
+                prover.goal(f"C10/{base}/interference:failed-enter-holds-nothing", a, a.g["Depth"] == pre.g["Depth"],
+                            info={"path": k})
+                continue
+            b = a.copy()
+            counters = []
+            if "buffered" in rec.fields:
+                counters.append(b.rec(rec.fields["buffered"]))
+                counters.append(b.rec(b.statics[(cname, "_buffer_context")]))
+            counters.append(b.rec(rec.fields["_suspend_sync"]))
+            for cr in counters:
+                v = smt.fresh("count_changed_by_another_thread", IntS)
+                b.assume(v >= 0)
+                cr.fields["_count"] = Iv(v)
+            for (c, r2) in eng.run_function(b, exit_, [ls, Const(None), Const(None), Const(None)]):
+                k += 1
+                prover.goal(f"C10/{base}/interference:exit-releases-what-enter-acquired", c,
+                            c.g["Depth"] == pre.g["Depth"], info={"path": k})
+        out["paths"] += k
+        out["functions"][enter.qualname] = enter.sha()
+        out["functions"][exit_.qualname] = exit_.sha()
     for q in list(eng.inlined) + list(eng.used_contracts):
         f = api.find_function(eng, q)
         if f is not None:
